@@ -104,6 +104,8 @@ type pMethod struct {
 	Ptag       string     `json:"ptag,omitempty"`      // which perturbation(s) produced this method (label only)
 	VerbProps  string     `json:"verbProps,omitempty"` // "key: value" text of a properties object on @Method (which takes none)
 	Multiline  bool       `json:"multiline,omitempty"` // every parameter name on a line of its own
+	HiddenSfx     string  `json:"hiddenSfx,omitempty"`     // text following "@Hidden" on its line
+	DeprecatedSfx string  `json:"deprecatedSfx,omitempty"` // text following "@Deprecated" on its line
 	Groups     []int      `json:"groups,omitempty"`    // identifier lists: [3,1] renders (a, b, c string, d int); empty = one name per declaration
 }
 
@@ -421,10 +423,10 @@ func writeProjectP(dir string, pc *pCase, repo string, hook bodyHook, prefix str
 			lines = append(lines, l)
 		}
 		if m.Hidden {
-			lines = append(lines, "// @Hidden")
+			lines = append(lines, "// @Hidden"+m.HiddenSfx)
 		}
 		if m.Deprecated {
-			lines = append(lines, "// @Deprecated")
+			lines = append(lines, "// @Deprecated"+m.DeprecatedSfx)
 		}
 		lines = append(lines, m.Extra...)
 		for _, l := range lines {
@@ -499,7 +501,7 @@ func writeProjectP(dir string, pc *pCase, repo string, hook bodyHook, prefix str
 	for _, k := range keys {
 		fb := files[k]
 		var sb strings.Builder
-		fmt.Fprintf(&sb, "package %s\n\n", k.pkg)
+		fmt.Fprintf(&sb, "package %s\n\n", filepath.Base(k.pkg)) // a nested package "p1/f1x" lives in p1/f1x and is named f1x
 		if len(fb.imports) > 0 {
 			imps := make([]string, 0, len(fb.imports))
 			for i := range fb.imports {
